@@ -448,6 +448,15 @@ func dhcpPersistence(c *core.Ctx, alpha []dEvent, hist []int, o dhcpOpts, r *dhc
 					try(fmt.Sprintf("byte %d replaced by %q", off, sb), yamlClass(final, off), img)
 				}
 			}
+			// the file truncated at every byte offset (the statement quantifies over it although the temp-and-rename save
+			// cannot leave such a file behind)
+			for n := 0; n < len(final); n++ {
+				cls := "start"
+				if n > 0 {
+					cls = yamlClass(final, n-1)
+				}
+				try(fmt.Sprintf("truncated to %d of %d bytes", n, len(final)), "truncated-"+cls, final[:n])
+			}
 			lines := bytes.SplitAfter(final, []byte("\n"))
 			for i := range lines {
 				var del, dup []byte
@@ -550,7 +559,7 @@ func restartBehaviour(o dhcpOpts, image []byte, want []binding, at int64) (failu
 }
 
 func init() {
-	d := dhcpDriver("persist", "for every distinct lease table reached by the C11 exploration (depth 2, thorough 3, plus the scripted start states; two address plans): (i) restart from the saved file: bindings equal the ones the running handler held, owners' renewals are ACKed, bound addresses are not offered to a fresh client, and the device content at the moment each ACK is transmitted already holds the acknowledged binding; (ii) crash points: the in-memory device logs every operation (open/truncate, write, sync, close, rename, remove) on the lease file and on temporary files; for the device state after every prefix of that log and in the middle of every write (every byte prefix in the thorough tier; first/last bytes and every 16th in quick) construction neither panics nor hangs, yields the bindings of the complete lease-file image before or after the interrupted save or an empty table, never a binding outside the home subnet or without client id, and a second restart from the files the recovering handler itself left yields the same bindings; (iii) every single-byte substitution by {space : - 0 9 a newline # 0xff} (quick: every second offset) and every line deletion/duplication of the saved file of the start states (thorough: of every state): no panic, no hang, no binding outside the home subnet or without client id, no binding absent from the original file, and a table that is intact or empty")
+	d := dhcpDriver("persist", "for every distinct lease table reached by the C11 exploration (depth 2, thorough 3, plus the scripted start states; two address plans): (i) restart from the saved file: bindings equal the ones the running handler held, owners' renewals are ACKed, bound addresses are not offered to a fresh client, and the device content at the moment each ACK is transmitted already holds the acknowledged binding; (ii) crash points: the in-memory device logs every operation (open/truncate, write, sync, close, rename, remove) on the lease file and on temporary files; for the device state after every prefix of that log and in the middle of every write (every byte prefix in the thorough tier; first/last bytes and every 16th in quick) construction neither panics nor hangs, yields the bindings of the complete lease-file image before or after the interrupted save or an empty table, never a binding outside the home subnet or without client id, and a second restart from the files the recovering handler itself left yields the same bindings; (iii) every single-byte substitution by {space : - 0 9 a newline # 0xff} (quick: every second offset) every line deletion/duplication and every truncation of the saved file of the start states (thorough: of every state): no panic, no hang, no binding outside the home subnet or without client id, no binding absent from the original file, and a table that is intact or empty")
 	base := d.Run
 	d.Run = func(c *core.Ctx, args []string) {
 		c.Res.Level = "fault_enumeration"
